@@ -60,7 +60,7 @@ type c13Ev struct {
 	A       string   `json:"a,omitempty"`
 	B       string   `json:"b,omitempty"`
 	Order   []string `json:"order,omitempty"` // observed order of Commit calls
-	Fault   string   `json:"fault,omitempty"` // none | fail | stop   (what actually fired)
+	Fault   string   `json:"fault,omitempty"` // none | fail | stop | logerr | logstop   (what actually fired)
 	K       int      `json:"k"`
 	Want    string   `json:"want,omitempty"` // requested fault (replay input; ignored by the model)
 	WantK   int      `json:"wantk,omitempty"`
@@ -114,6 +114,7 @@ type c13Inj struct {
 	calls    int
 	order    []string
 	fired    bool
+	logSeen  int // did_change_log writes seen in this operation (modes logerr / logstop)
 	sweepErr string
 	nutsNo   []string
 }
@@ -556,6 +557,9 @@ func c13Variants(sid string, seq []c13Ev, methods []string, rng *rand.Rand, all 
 	for k := 0; k <= len(methods); k++ {
 		faults = append(faults, fault{"stop", k})
 	}
+	for k := 0; k < len(methods); k++ {
+		faults = append(faults, fault{"logerr", k}, fault{"logstop", k})
+	}
 	for j := range seq {
 		for _, f := range faults {
 			if !all && rng.Intn(3) != 0 {
@@ -641,6 +645,31 @@ func TestVerifC13(t *testing.T) {
 	w := &c13World{t: t, ctx: audit.TestContext(), eng: eng, db: db, ks: nutsCrypto.NewDatabaseCryptoInstance(db),
 		store: didstore.TestStore(t, eng)}
 	w.reset([]string{"nuts", "web"})
+	// crash point "at the k-th did_change_log write": a DB error (logerr) or a process stop (logstop)
+	if err := db.Callback().Create().Before("gorm:create").Register("c13:logfault", func(tx *gorm.DB) {
+		in := w.inj
+		if in == nil || (in.mode != "logerr" && in.mode != "logstop") || in.fired || tx.Statement.Table != "did_change_log" {
+			return
+		}
+		if in.logSeen == in.k {
+			in.fired = true
+			if in.mode == "logstop" {
+				// a dead process releases its connection: if gorm opened an implicit transaction for this single statement
+				// (the write is NOT part of an explicit transaction), give the connection back before "dying"
+				if _, implicit := tx.InstanceGet("gorm:started_transaction"); implicit {
+					if c, ok := tx.Statement.ConnPool.(gorm.TxCommitter); ok {
+						_ = c.Rollback()
+					}
+				}
+				panic(c13Stop{})
+			}
+			_ = tx.AddError(errC13Injected)
+			return
+		}
+		in.logSeen++
+	}); err != nil {
+		t.Fatal(err)
+	}
 
 	opsF, err := os.Create(filepath.Join(outDir, "ops.jsonl"))
 	if err != nil {
@@ -655,9 +684,29 @@ func TestVerifC13(t *testing.T) {
 	ops, impl := bufio.NewWriter(opsF), bufio.NewWriter(implF)
 	defer ops.Flush()
 	defer impl.Flush()
+	// watchdog: an event that hangs (e.g. a connection that is never given back) is an outcome with a replay, not a hung check
+	var curEv *c13Ev
+	var curStart time.Time
+	go func() {
+		for {
+			time.Sleep(200 * time.Millisecond)
+			if ev := curEv; ev != nil && time.Since(curStart) > 20*time.Second {
+				b, _ := json.Marshal(*ev)
+				ops.Write(b)
+				ops.WriteString("\n")
+				impl.WriteString("hang log=0 keys=0 list=ok\n")
+				ops.Flush()
+				impl.Flush()
+				os.Exit(0)
+			}
+		}
+	}()
 	exec := func(evs []c13Ev) {
 		for _, ev := range evs {
+			e := ev
+			curStart, curEv = time.Now(), &e
 			done, line := w.runSafe(ev)
+			curEv = nil
 			b, _ := json.Marshal(done)
 			ops.Write(b)
 			ops.WriteString("\n")
